@@ -227,6 +227,21 @@ func pick[T any](t *rapid.T, xs []T, label string) T {
 	return xs[rapid.IntRange(0, len(xs)-1).Draw(t, label)]
 }
 
+// pickTwo draws credit and debit accounts: different ones except in a rare
+// self-booking case.
+func (h *History) pickTwo(open []*acct) (*acct, *acct) {
+	t := h.t
+	i := rapid.IntRange(0, len(open)-1).Draw(t, "credit")
+	if len(open) == 1 || rapid.IntRange(0, 24).Draw(t, "selfBooking") == 0 {
+		return open[i], open[i]
+	}
+	k := rapid.IntRange(0, len(open)-2).Draw(t, "debit")
+	if k >= i {
+		k++
+	}
+	return open[i], open[k]
+}
+
 func (h *History) advance(min int) {
 	t := h.t
 	k := rapid.SampledFrom([]int{0, 0, 0, 1, 1, 2, 7, 20, 31, 45, -1, -1}).Draw(t, "dt")
@@ -418,8 +433,7 @@ func (h *History) step(act int) {
 		h.need(0)
 		var bs []ref.Booking
 		for i := 0; i < nb; i++ {
-			cr := pick(t, open, "credit")
-			dr := pick(t, open, "debit")
+			cr, dr := h.pickTwo(open)
 			cr.used, dr.used = true, true
 			bs = append(bs, ref.Booking{Credit: cr.name, Debit: dr.name, Qty: DrawQty(t, cfg.MaxDec, true), Com: pick(t, h.coms, "com")})
 		}
@@ -521,8 +535,7 @@ func (h *History) step(act int) {
 		lo := accr.openedOn
 		var involved []*acct
 		for i := 0; i < nb; i++ {
-			cr := pick(t, open, "credit")
-			dr := pick(t, open, "debit")
+			cr, dr := h.pickTwo(open)
 			for _, a := range []*acct{cr, dr} {
 				involved = append(involved, a)
 				if a.openedOn > lo {
